@@ -23,9 +23,9 @@ theorem config (cfg : Cfg) : C02Spec.ConfigOk (limits (effective cfg)) := by
   refine ⟨w.min_pos, w.min_le_max, w.max_le_day, w.min_le_default, w.default_le_max, ?_, ?_, ?_, ?_, ?_⟩
   · simp only [sanitize_config]; exact r.1
   · simp only [sanitize_config]; exact r.2
-  · simp only [sanitize_config, kMaxAnnouncePowDifficulty]; grind
-  · simp only [sanitize_config, kMaxHandshakePowDifficulty]; grind
-  · simp only [sanitize_config, kMaxStorePowDifficulty]; grind
+  · simp only [sanitize_config]; gen_consts; grind
+  · simp only [sanitize_config]; gen_consts; grind
+  · simp only [sanitize_config]; gen_consts; grind
 
 /-- **C02.store** whatever TTL is requested (zero, negative, tiny, huge), each of the four
     lifetimes recorded for a store — chunk record, manifest expiry, shard record, self-announce —
